@@ -32,6 +32,7 @@ package smtp
 //@   check safety
 //@   requires conn != nil && s != nil
 //@   physical 0 <= nsends && nsends < 1<<48
+//@   ensures [no-goroutines] gostarts == old(gostarts)
 //@   modifies *
 //@   loop 1: invariant conn != nil && s != nil
 //@   loop 1: invariant nsends == old(nsends) + loopiter
@@ -54,5 +55,7 @@ package smtp
 // the pump is closed before Handle returns (no goroutine is left behind per past connection).
 //@ func (*Service).Handle
 //@   callpre (*Server).newConn: fresh(recv) && fresh(s)
-//@   ensures [pump-ends] result == nil ==> closed(done)
+//@   physical 0 <= gostarts && gostarts < 1<<40
+//@   ensures [pump-ends] gostarts != old(gostarts) ==> closed(done)
+//@   ensures [one-helper] gostarts <= old(gostarts) + 1
 //@   modifies *
